@@ -1,1 +1,4 @@
 // hook file for statime-csptp/src/server.rs: declares the per-property harness modules
+#[cfg(any(verif_all, verif_c45))]
+#[path = "/verif/harness/statime-csptp/c45.rs"]
+mod c45;
